@@ -95,8 +95,25 @@ class LoopChecker:
 
     def _size_guard(self, count: ast.expr, at: ast.AST) -> t.Optional[str]:
         """A dominating guard `count <= f(len(buffer))` (raise otherwise) relates the count to the input size."""
+        from .flow import ReachingDefs, prov_ast
+
         ctext = unparse(count)
-        for cond, pol in self._guards(at):
+        rd = getattr(self, "_rd", None)
+        if rd is None:
+            rd = self._rd = ReachingDefs(self.func, self.cfg)  # type: ignore[attr-defined]
+        guards = list(self._guards(at))
+        # a bound held in a local (`limit = len(v) // 8; if n > limit: raise`) counts as the bound it was computed from
+        expanded = []
+        for cond, pol in guards:
+            expanded.append((cond, pol))
+            if isinstance(cond, ast.Compare) and len(cond.ops) == 1:
+                import copy as _copy
+
+                c2 = _copy.copy(cond)
+                c2.left = cond.left if unparse(cond.left) == ctext else prov_ast(rd, cond.left, cond)
+                c2.comparators = [cond.comparators[0] if unparse(cond.comparators[0]) == ctext else prov_ast(rd, cond.comparators[0], cond)]
+                expanded.append((c2, pol))
+        for cond, pol in expanded:
             if not isinstance(cond, ast.Compare) or len(cond.ops) != 1:
                 continue
             a, op, b = cond.left, cond.ops[0], cond.comparators[0]
